@@ -1,8 +1,351 @@
 package ag
 
-import "tsim/kernel"
+import (
+	"fmt"
+	"math/big"
+	"math/rand"
+	"sort"
+	"strings"
 
-type stkInfo struct{}
+	"github.com/ethereum/go-ethereum/common"
+	ethcrypto "github.com/ethereum/go-ethereum/crypto"
 
-func (w *world) opStake(op kernel.Op) {}
-func (w *world) afterStake(in *intent, ok bool, vmErr, log string, pre, post *snap) {}
+	sdk "github.com/cosmos/cosmos-sdk/types"
+	authtypes "github.com/cosmos/cosmos-sdk/x/auth/types"
+	banktypes "github.com/cosmos/cosmos-sdk/x/bank/types"
+	govtypes "github.com/cosmos/cosmos-sdk/x/gov/types"
+	stakingtypes "github.com/cosmos/cosmos-sdk/x/staking/types"
+
+	govcontract "github.com/teleport-network/teleport/syscontracts/gov"
+	stakingcontract "github.com/teleport-network/teleport/syscontracts/staking"
+
+	"tsim/kernel"
+	"tsim/node"
+)
+
+var (
+	stakingABI  = stakingcontract.StakingContract.ABI
+	govABI      = govcontract.GovContract.ABI
+	stakingAddr = common.HexToAddress("0x0000000000000000000000000000000010000001")
+	govAddr     = common.HexToAddress("0x0000000000000000000000000000000010000002")
+)
+
+// hand-assembled helper contracts (no Solidity compiler is available):
+// forwarder: calldata = target(32) | payload; calls target with payload, stores the success flag in slot 0.
+var forwarderRuntime = common.FromHex("3660209003806020600037600060009160006000600035" + "5af1600055" + "3d600060003e" + "3d6000f3")
+
+// forger: calldata = topic(32) | data; emits LOG1(topic, data) from its own address.
+var forgerRuntime = common.FromHex("366020900380602060003760003590" + "6000a100")
+
+// batch: calldata = addr1 | size1 | addr2 | size2 | data1 | data2; calls both targets in one transaction.
+var batchRuntime = common.FromHex("602035" + "80" + "6080600037" + "6000600082" + "60006000" + "600035" + "5af1" + "50" +
+	"606035" + "80" + "82608001" + "600037" + "6000600082" + "60006000" + "604035" + "5af1" + "00")
+
+func initCode(rt []byte) []byte {
+	return append([]byte{0x60, byte(len(rt)), 0x80, 0x60, 0x0b, 0x60, 0x00, 0x39, 0x60, 0x00, 0xf3}, rt...)
+}
+
+type stkInfo struct {
+	action string // delegate | undelegate | redelegate | withdraw | vote | voteweighted | vote+delegate
+	path   string // eoa | contract | forged | batch
+	actor  sdk.AccAddress
+	val    string
+	val2   string
+	amount *big.Int
+	propID uint64
+	option uint32
+}
+
+func (w *world) setupStaking() error {
+	// helper contracts, deployed and funded by the gov account in one set-up block
+	w.now = w.now.Add(5e9)
+	w.c.BeginBlock(w.now)
+	for i, rt := range [][]byte{forwarderRuntime, forgerRuntime, batchRuntime} {
+		nonce := w.c.App.EvmKeeper.GetNonce(w.c.ReadCtx(), w.gov.Eth)
+		if err := w.mustEth(w.gov, nil, initCode(rt)); err != nil {
+			return err
+		}
+		a := ethcrypto.CreateAddress(w.gov.Eth, nonce)
+		switch i {
+		case 0:
+			w.forwarder = a
+		case 1:
+			w.forger = a
+		case 2:
+			w.batch = a
+		}
+	}
+	for _, a := range []common.Address{w.forwarder, w.batch} {
+		msg := banktypes.NewMsgSend(w.gov.Acc, sdk.AccAddress(a.Bytes()), sdk.NewCoins(sdk.NewCoin(node.Denom, sdk.NewInt(1_000_000_000))))
+		tx, err := w.c.CosmosTx(w.gov, msg)
+		if err != nil {
+			return err
+		}
+		if res := w.c.DeliverTx(tx); res.Code != 0 {
+			return fmt.Errorf("funding helper contract: %s", res.Log)
+		}
+	}
+	w.c.EndBlockCommit()
+	for _, v := range w.c.ValSet.Validators {
+		w.valopers = append(w.valopers, sdk.ValAddress(v.Address).String())
+	}
+	sort.Strings(w.valopers)
+	return nil
+}
+
+var stakeAmounts = []int64{1, 1000, 500000, 999999999, 1000000000, 1000000001}
+
+func (w *world) opStake(op kernel.Op) {
+	if w.forwarder == (common.Address{}) {
+		return
+	}
+	r := rand.New(rand.NewSource(op.Arg(5)))
+	u := w.users[kernel.Mod(op.Arg(0), len(w.users))]
+	si := &stkInfo{}
+	val := func(sel int64) string {
+		if sel%5 == 4 {
+			return "teleportvaloper1notavalidatorxxxxxxxxxxxxxxxxxxxxxxxxx"
+		}
+		return w.valopers[kernel.Mod(sel, len(w.valopers))]
+	}
+	si.val, si.val2 = val(op.Arg(2)), val(op.Arg(2)+1)
+	si.amount = big.NewInt(stakeAmounts[kernel.Mod(op.Arg(3), len(stakeAmounts))])
+	if op.Arg(3)%11 == 10 {
+		si.amount = new(big.Int).Lsh(big.NewInt(1), 255)
+	}
+	var target common.Address
+	var data []byte
+	switch kernel.Mod(op.Arg(1), 6) {
+	case 0, 1:
+		si.action, target, data = "delegate", stakingAddr, mustPack(stakingABI, "delegate", si.val, si.amount)
+	case 2:
+		si.action, target, data = "undelegate", stakingAddr, mustPack(stakingABI, "undelegate", si.val, si.amount)
+	case 3:
+		si.action, target, data = "redelegate", stakingAddr, mustPack(stakingABI, "redelegate", si.val, si.val2, si.amount)
+	case 4:
+		si.action, target, data = "withdraw", stakingAddr, mustPack(stakingABI, "withdraw", si.val)
+	case 5:
+		si.action = "vote"
+		si.propID = w.someProposal(r)
+		si.option = uint32(1 + r.Intn(4))
+		target, data = govAddr, mustPack(govABI, "vote", si.propID, si.option)
+	}
+	var to common.Address
+	switch kernel.Mod(op.Arg(4), 5) {
+	case 0, 1:
+		si.path, si.actor, to = "eoa", u.Acc, target
+	case 2:
+		si.path, si.actor, to = "contract", sdk.AccAddress(w.forwarder.Bytes()), w.forwarder
+		data = append(common.LeftPadBytes(target.Bytes(), 32), data...)
+	case 3:
+		// look-alike event emitted by an attacker contract, naming the user as delegator / voter
+		si.path, si.actor, to = "forged", u.Acc, w.forger
+		var topic common.Hash
+		var payload []byte
+		if si.action == "vote" {
+			ev := govABI.Events["Voted"]
+			topic = ev.ID
+			payload, _ = ev.Inputs.Pack(u.Eth, si.propID, si.option)
+		} else {
+			ev := stakingABI.Events["Delegated"]
+			topic = ev.ID
+			payload, _ = ev.Inputs.Pack(u.Eth, si.val, si.amount)
+			si.action = "delegate"
+		}
+		data = append(topic.Bytes(), payload...)
+	case 4:
+		// two actions in one transaction: a vote followed by a delegation, both by the batch contract
+		si.path, si.actor, to = "batch", sdk.AccAddress(w.batch.Bytes()), w.batch
+		si.action = "vote+delegate"
+		si.propID = w.someProposal(r)
+		if si.amount.BitLen() > 30 {
+			si.amount = big.NewInt(1000)
+		}
+		si.option = uint32(1 + r.Intn(4))
+		d1 := mustPack(govABI, "vote", si.propID, si.option)
+		d2 := mustPack(stakingABI, "delegate", si.val, si.amount)
+		if op.Arg(1)%2 == 1 {
+			// the other order
+			si.action = "delegate+vote"
+			data = batchData(stakingAddr, d2, govAddr, d1)
+		} else {
+			data = batchData(govAddr, d1, stakingAddr, d2)
+		}
+	}
+	w.mempool = append(w.mempool, &intent{kind: "stake", signer: u, eth: true, to: &to, data: data, stk: si,
+		desc: fmt.Sprintf("%s via %s by %s val=%s amt=%s prop=%d opt=%d", si.action, si.path, u.Label, si.val[len(si.val)-6:], si.amount, si.propID, si.option)})
+}
+
+func batchData(a1 common.Address, d1 []byte, a2 common.Address, d2 []byte) []byte {
+	out := common.LeftPadBytes(a1.Bytes(), 32)
+	out = append(out, common.LeftPadBytes(big.NewInt(int64(len(d1))).Bytes(), 32)...)
+	out = append(out, common.LeftPadBytes(a2.Bytes(), 32)...)
+	out = append(out, common.LeftPadBytes(big.NewInt(int64(len(d2))).Bytes(), 32)...)
+	out = append(out, d1...)
+	return append(out, d2...)
+}
+
+func mustPack(a abiT, m string, args ...interface{}) []byte {
+	bz, err := a.Pack(m, args...)
+	if err != nil {
+		panic(err)
+	}
+	return bz
+}
+
+// stakeState: every delegation, unbonding, redelegation and vote, as strings.
+func (w *world) stakeState() map[string]string {
+	ctx := w.c.ReadCtx()
+	out := map[string]string{}
+	for _, d := range w.c.App.StakingKeeper.GetAllDelegations(ctx) {
+		out["del|"+d.DelegatorAddress+"|"+d.ValidatorAddress] = d.Shares.TruncateInt().String()
+	}
+	w.c.App.StakingKeeper.IterateUnbondingDelegations(ctx, func(_ int64, u stakingtypes.UnbondingDelegation) bool {
+		t := sdk.ZeroInt()
+		for _, e := range u.Entries {
+			t = t.Add(e.Balance)
+		}
+		out["ubd|"+u.DelegatorAddress+"|"+u.ValidatorAddress] = t.String()
+		return false
+	})
+	w.c.App.StakingKeeper.IterateRedelegations(ctx, func(_ int64, rd stakingtypes.Redelegation) bool {
+		t := sdk.ZeroInt()
+		for _, e := range rd.Entries {
+			t = t.Add(e.InitialBalance)
+		}
+		out["red|"+rd.DelegatorAddress+"|"+rd.ValidatorSrcAddress+"|"+rd.ValidatorDstAddress] = t.String()
+		return false
+	})
+	w.c.App.GovKeeper.IterateAllVotes(ctx, func(v govtypes.Vote) bool {
+		var opts []string
+		for _, o := range v.Options {
+			opts = append(opts, fmt.Sprintf("%d:%s", o.Option, o.Weight))
+		}
+		out[fmt.Sprintf("vote|%s|%d", v.Voter, v.ProposalId)] = strings.Join(opts, ",")
+		return false
+	})
+	return out
+}
+
+func stateDiff(a, b map[string]string) map[string][2]string {
+	out := map[string][2]string{}
+	for k, v := range a {
+		if b[k] != v {
+			out[k] = [2]string{v, b[k]}
+		}
+	}
+	for k, v := range b {
+		if _, ok := a[k]; !ok {
+			out[k] = [2]string{"", v}
+		}
+	}
+	return out
+}
+
+func bigOf(s string) *big.Int {
+	if s == "" {
+		return new(big.Int)
+	}
+	v, ok := new(big.Int).SetString(s, 10)
+	if !ok {
+		return new(big.Int)
+	}
+	return v
+}
+
+func (w *world) afterStake(in *intent, ok bool, vmErr, log string, pre, post *snap) {
+	si := in.stk
+	d := stateDiff(pre.stake, post.stake)
+	var keys []string
+	for k := range d {
+		keys = append(keys, k)
+	}
+	sort.Strings(keys)
+	actor := si.actor.String()
+	w.rec.Probe("stake." + si.path + "." + si.action + fmt.Sprintf(".ok=%v", ok))
+	// supply never changes through staking or governance actions
+	for k, v := range pre.bal {
+		if strings.HasPrefix(k, "supply|") && post.get(k).Cmp(v) != 0 {
+			w.rec.Violate("C17", "supply_changed", si.action, "%s changed the supply of %s", in.desc, k[7:])
+		}
+	}
+	if !ok {
+		// the native action failed (or the call reverted): the whole transaction left nothing behind
+		if len(d) > 0 || len(storeDiff(pre, post)) > 0 || len(balDiff(pre, post)) > 0 {
+			w.rec.Violate("C17", "failed_action_left_effects", si.path+":"+si.action, "%s failed (%s) but changed state: staking/gov %v stores %v", in.desc, vmErr, keys, storeDiff(pre, post))
+		}
+		return
+	}
+	w.rec.SetNontrivial()
+	// attribution: only the account that called the system contract is affected
+	for _, k := range keys {
+		parts := strings.Split(k, "|")
+		if parts[1] != actor {
+			w.rec.Violate("C17", "wrong_account", si.path+":"+si.action, "%s changed %s, which belongs to another account than the caller %s", in.desc, k, actor)
+		}
+	}
+	if si.path == "forged" {
+		if len(d) > 0 {
+			w.rec.Violate("C17", "forged_event_honoured", si.action, "an event emitted by a contract other than the system contract changed native state: %v", keys)
+		}
+		if bd := balDiff(pre, post); len(bd) > 0 {
+			w.rec.Violate("C17", "forged_event_honoured", si.action+":balances", "look-alike event moved balances:%s", fmtDiff(bd))
+		}
+		return
+	}
+	amt := si.amount
+	expect := func(key string, delta *big.Int) {
+		got := new(big.Int).Sub(bigOf(d[key][1]), bigOf(d[key][0]))
+		if _, changed := d[key]; !changed {
+			got = new(big.Int)
+		}
+		if got.Cmp(delta) != 0 {
+			w.rec.Violate("C17", "wrong_effect", si.path+":"+si.action, "%s: %s changed by %s, expected %s (once per emitted event, exactly the passed amount)", in.desc, key, got, delta)
+		}
+	}
+	expectVote := func() {
+		key := fmt.Sprintf("vote|%s|%d", actor, si.propID)
+		want := fmt.Sprintf("%d:%s", si.option, sdk.OneDec())
+		if post.stake[key] != want {
+			w.rec.Violate("C17", "wrong_effect", si.path+":"+si.action+":vote", "%s succeeded but the recorded vote is %q, expected %q", in.desc, post.stake[key], want)
+		}
+	}
+	neg := new(big.Int).Neg(amt)
+	switch si.action {
+	case "delegate":
+		expect("del|"+actor+"|"+si.val, amt)
+	case "undelegate":
+		expect("del|"+actor+"|"+si.val, neg)
+		expect("ubd|"+actor+"|"+si.val, amt)
+	case "redelegate":
+		expect("del|"+actor+"|"+si.val, neg)
+		expect("del|"+actor+"|"+si.val2, amt)
+	case "withdraw":
+		if len(d) > 0 {
+			w.rec.Violate("C17", "wrong_effect", si.path+":withdraw", "%s changed staking/gov state: %v", in.desc, keys)
+		}
+	case "vote":
+		expectVote()
+	case "vote+delegate", "delegate+vote":
+		expectVote()
+		expect("del|"+actor+"|"+si.val, amt)
+	}
+	// bank side of a delegation: the caller pays exactly the amount into the bonded pool
+	if si.action == "delegate" && si.path == "eoa" {
+		bd := balDiff(pre, post)
+		bp := "bank|mod:" + stakingtypes.BondedPoolName + "|" + node.Denom
+		if bd[bp] == nil || bd[bp].Cmp(amt) != 0 {
+			w.rec.Violate("C17", "wrong_effect", "eoa:delegate:bonded_pool", "%s: bonded pool changed by %v, expected %s", in.desc, bd[bp], amt)
+		}
+	}
+}
+
+var _ = authtypes.ModuleName
+
+// someProposal prefers a proposal that is currently in its voting period.
+func (w *world) someProposal(r *rand.Rand) uint64 {
+	if len(w.props) > 0 && r.Intn(5) > 0 {
+		return w.props[r.Intn(len(w.props))].id
+	}
+	return 1 + uint64(r.Intn(6))
+}
